@@ -61,6 +61,14 @@ def gen_archive(rnd, flavour, newline):
             i += k
         else:
             items.append(("entry", entries[i])); i += 1
+    # solid blocks that hold no entry at all (a finished SolidEntryBuilder nobody added to; what `delete --keep-solid`
+    # leaves of a block whose entries are all deleted) in front of, between and behind the others (seeded C17-3: an
+    # iterator that stops at an empty block hides everything behind it from extract only)
+    if rnd.random() < 0.3:
+        for _ in range(rnd.randint(1, 2)):
+            senc = enc if flavour == "encsolid" else None
+            items.insert(rnd.randint(0, len(items)),
+                         ("solid", rnd.choice([0, 1, 2, 3]), senc[0] if senc else 0, senc[1] if senc else 0, [], []))
     return items
 
 
